@@ -209,6 +209,9 @@ func runWorker(bin string, j job, timeout time.Duration) (*result, error) {
 			if len(tail) > 6000 {
 				tail = tail[:3000] + "\n...\n" + tail[len(tail)-3000:]
 			}
+			if v := crashViolation(stderr.String(), j); v != nil {
+				return &result{Job: j, Engine: "crash", Violations: []violation{*v}, ViolCount: map[string]int{v.Kind + "/" + v.Subject: 1}}, nil
+			}
 			return nil, fmt.Errorf("worker failed: %v\n%s", err, tail)
 		}
 	case <-time.After(timeout):
@@ -222,6 +225,48 @@ func runWorker(bin string, j job, timeout time.Duration) (*result, error) {
 		return nil, fmt.Errorf("bad worker output: %v: %.300s", err, stdout.String())
 	}
 	return &r, nil
+}
+
+// crashViolation: an unrecoverable runtime failure (fatal error, unrecovered panic) whose stack
+// passes through otter's own code is a defect of the code under check, not of the harness.
+func crashViolation(stderr string, j job) *violation {
+	if !strings.Contains(stderr, "fatal error:") && !strings.Contains(stderr, "panic:") {
+		return nil
+	}
+	if strings.Contains(stderr, "out of memory") || strings.Contains(stderr, "cannot allocate memory") {
+		return nil
+	}
+	lines := strings.Split(stderr, "\n")
+	subject := ""
+	for _, l := range lines {
+		if strings.HasPrefix(l, "github.com/maypok86/otter/v2") && !strings.Contains(l, "/internal/verif/") {
+			fn := l
+			if i := strings.Index(fn, "("); i > 0 {
+				fn = fn[:i]
+			}
+			fn = strings.TrimPrefix(fn, "github.com/maypok86/otter/v2")
+			fn = strings.NewReplacer("[...]", "", "(*", "", ")", "").Replace(fn)
+			subject = strings.Trim(fn, "/.")
+			break
+		}
+	}
+	if subject == "" {
+		return nil
+	}
+	head := ""
+	for _, l := range lines {
+		if strings.HasPrefix(l, "fatal error:") || strings.HasPrefix(l, "panic:") {
+			head = l
+			break
+		}
+	}
+	tail := stderr
+	if len(tail) > 3000 {
+		tail = tail[:3000]
+	}
+	sc, _ := j["scenario"].(string)
+	raw, _ := json.Marshal(j["params"])
+	return &violation{Kind: "crash", Subject: subject, Detail: "the worker process died inside the code under check: " + head + "\n" + tail, Scenario: sc, Params: raw}
 }
 
 func loadFindings() []finding {
